@@ -1449,6 +1449,12 @@ WITNESSES = [
     {"name": "parameters-to-dict-cached", "file": "mlinsights/sklapi/sklearn_parameters.py", "rule": "C01.j", "old": "        return {k: getattr(self, k) for k in self.Keys}\n", "new": "        if getattr(self, \"_dict\", None) is None:\n            self._dict = {k: getattr(self, k) for k in self.Keys}\n        return self._dict\n"},
     {"name": "ar-estimator-conditional", "file": "mlinsights/timeseries/ar.py", "rule": "C01.a", "old": "        else:\n            self.estimator = estimator\n", "new": ""},
 ]
+# witnesses of the rules added after the ninth round of independent changes
+WITNESSES += [
+    {"name": "prefix-removed-everywhere", "file": _L, "rule": "C01.d", "old": "pars = {k[d:]: v for k, v in values.items()}", "new": "pars = {k.replace(\"model__\", \"\"): v for k, v in values.items()}"},
+]
+
+
 TWINS = [
     {"name": "learner-rename-local", "file": _L, "old": "        d = len(\"model__\")\n        pars = {k[d:]: v for k, v in values.items()}", "new": "        plen = len(\"model__\")\n        pars = {key[plen:]: val for key, val in values.items()}"},
     {"name": "stacking-use-split-result", "file": _S, "old": "pars[i][k[d + len(si[0]) + 2 :]] = v", "new": "pars[i][si[1]] = v"},
